@@ -256,5 +256,10 @@ func (*treePipeline) handlePipelineErr(ctx context.Context, echs ...<-chan error
 			return nil
 		})
 	}
-	return eg.Wait()
+	if err := eg.Wait(); err != nil {
+		return err
+	}
+	// every stage may have shut down quietly because the caller's context was cancelled:
+	// that is not a successful run
+	return ctx.Err()
 }
